@@ -33,8 +33,8 @@ ASSUMPTIONS = [
     "a fitting message that a back end refuses is not a C14 violation (C06/C09 own acceptance)",
     "either an Err result or an exception counts as 'fails with an error'",
 ]
-FLOORS = {"just_over": 0.08, "oversize": 0.25, "variable": 0.15, "fits": 0.15, "place_nested": 0.03, "place_array": 0.03,
-          "place_enum": 0.03, "var_nested": 0.02, "var_in_array": 0.02, "success_checked": 0.10}
+FLOORS = {"just_over": 0.05, "oversize": 0.2, "variable": 0.10, "fits": 0.08, "place_nested": 0.015, "place_array": 0.03,
+          "place_enum": 0.03, "var_nested": 0.02, "var_in_array": 0.02, "success_checked": 0.07}
 
 PLACES = ["first", "middle", "last", "nested", "array", "enum", "spread"]
 VAR_PLACES = ["top", "nested", "in_array"]
